@@ -247,7 +247,17 @@ def r4_transparency(a, tier):
                 reaches.add(f.qualname)
                 changed = True
 
+    # the sink itself: inside semantics_call, any call that invokes, or is handed, the value found by find_semantic_action
+    tf = a.p.func(target)
+    action_vars = {t.id for n in walk_no_defs(tf.node) if isinstance(n, (ast.Assign, ast.NamedExpr))
+                   for t in ([n.target] if isinstance(n, ast.NamedExpr) else n.targets) if isinstance(t, ast.Name)
+                   and isinstance(n.value, ast.Call) and dotted(n.value.func).split('.')[-1] in ('find_semantic_action', 'find_cached_semantic_action')}
+    if not action_vars:
+        raise AnalysisError('semantics_call: the action lookup (find_semantic_action) bound to a local was not found')
+
     def call_reaches(f, n: ast.Call) -> bool:
+        if f is tf and any(isinstance(x, ast.Name) and x.id in action_vars for x in [n.func, *n.args, *[k.value for k in n.keywords]]):
+            return True
         r = a.resolver.resolve_call(f, n)
         if r.kind == 'unresolved':
             return True
